@@ -79,7 +79,7 @@ pub struct KeyArithmetic {
 pub fn key_arithmetic<H: HashChain>(blob: &[u8]) -> Result<KeyArithmetic, ()> {
     let mut rfc_key = ReferenceImplPrivateKey::<H>::from_binary_representation(blob)?;
     let parameters = rfc_key.compressed_parameter.to::<H>()?;
-    let leaves = rfc_key.compressed_used_leafs_indexes.to(&parameters);
+    let leaves = rfc_key.compressed_used_leafs_indexes.to(&parameters)?;
 
     let mut hss_private_key: HssPrivateKey<H> = Default::default();
     let levels = parameters.len();
